@@ -155,29 +155,6 @@ impl Check for CrossCheck {
     fn gen(&self, seed: u64, tier: Tier) -> Run {
         let mut run = gen_sess_run(self.id, seed, tier, false);
         let mut f = Rng::stream(seed, "schedule");
-        if f.chance(1, 3) {
-            // independent symmetries on a multi-slot leaf, asserted at random points of the history
-            let k = *f.pick(&[3usize, 4, 4]);
-            let base: Vec<S> = (0..k as S).collect();
-            let leaf = Tm::leaf(&format!("p{k}"), base.clone());
-            for _ in 0..f.range(2, 3) {
-                let mut v = base.clone();
-                let i = f.below(k);
-                let j = (i + 1 + f.below(k - 1)) % k;
-                v.swap(i, j);
-                let other = Tm::leaf(&format!("p{k}"), v);
-                let pos = f.below(run.ops.len() + 1);
-                run.ops.insert(pos, Op::new("union").t(leaf.clone()).t(other).i(f.below(2) as i64));
-            }
-            if f.chance(1, 2) {
-                // a parent that uses the leaf twice
-                let mut v = base.clone();
-                v.swap(0, k - 1);
-                let t = Tm::node("b", vec![], vec![(vec![], leaf.clone()), (vec![], Tm::leaf(&format!("p{k}"), v))]);
-                let pos = f.below(run.ops.len() + 1);
-                run.ops.insert(pos, Op::new("add").t(t));
-            }
-        }
         if self.id == "C12" {
             run.set("naming", 0);
             run.set("schedules", 3);
